@@ -65,7 +65,7 @@ def http_status(sx, p):
     cls, pname = p
     prot = GENERIC.get(pname) or SOAP[pname]
     f = _mk(cls)
-    n = sx.choose('len', [0, 5, 6, 7, 9])
+    n = sx.choose('len', [0, 5, 6, 7, 9] if sx.tier == 'quick' else list(range(0, 13)))
     code = sx.text('code', n) if n else ''
     f.faultcode = code
     status = prot.fault_to_http_response_code(f)
